@@ -146,7 +146,25 @@ def c_collection_invalidation():
     return None
 
 
-CHECKS = {"C01": [c_sharing, c_nested_failure], "C02": [c_sharing], "C08": [c_sharing, c_reset_all], "C04": [c_nested_failure, c_failed_assignment_keeps_caches],
+@spec_class(bootstrap=True)
+class Scaled:
+    nums: List[int] = []
+
+    def _prepare_num(self, n):
+        return n * 2
+
+
+def c_argument_container_untouched():
+    for label, op in (("Scaled().with_nums(arg)", lambda a: Scaled().with_nums(a)), ("obj.nums = arg", lambda a: setattr(Scaled(), "nums", a)),
+                      ("Scaled().update(nums=arg)", lambda a: Scaled().update(nums=a)), ("Scaled(nums=arg)", lambda a: Scaled(nums=a))):
+        arg = [1, 2]
+        op(arg)
+        if arg != [1, 2]:
+            return "%s with an item preparer rewrote the caller's own list: [1, 2] -> %r" % (label, arg)
+    return None
+
+
+CHECKS = {"C01": [c_sharing, c_nested_failure, c_argument_container_untouched], "C06": [c_argument_container_untouched], "C02": [c_sharing], "C08": [c_sharing, c_reset_all], "C04": [c_nested_failure, c_failed_assignment_keeps_caches],
           "C07": [c_nested_failure], "C05": [c_reset_all], "C11": [c_collection_invalidation, c_failed_assignment_keeps_caches]}
 
 REPLAY = '''#!/venv/bin/python
